@@ -86,7 +86,12 @@ class PathGlob(Glob):
             raise NonGlobError('{!r} is not a glob'.format(pattern))
         base, glob = bits.split_at(first_glob)
 
-        self.base = Path(Path.sep.join(base), path.root, directory=True)
+        base = Path.sep.join(base)
+        if base.startswith('~'):
+            # This comes from a path, where a leading `~` is a name (anything
+            # meant to be expanded already was).
+            base = './' + base
+        self.base = Path(base, path.root, directory=True)
         self.glob = self._compile_glob(glob)
 
     def to_json(self):
